@@ -28,6 +28,10 @@ def smallAccepts (n v : Nat) : Bool := !(v > 2 ^ n - 1)
 
 inductive SetResult | ok (X : Nat) | valueTooLarge | domain | unmodelled
 
+def SetResult.rejected : SetResult → Bool
+  | .valueTooLarge => true
+  | _ => false
+
 /-- one public setter call: parameter conversion (domain of the C++ parameter type, `small_uint` range check),
     then the accessor body -/
 def setStep (k : Cls) (fld : String) (v X : Nat) : SetResult :=
